@@ -40,6 +40,13 @@ Definition v_assign_from (old v : vec T) : vec T := mkVec (vdim v) (vcomps v).
 (** Vector(dim), Vector(): Vector(dim, 0.0), Vector(3) *)
 Definition v_zero (dim : nat) : vec T := vfill dim zero.
 Definition v_default : vec T := v_zero 3.
+(** Vector::Normalized() const: double norm = Norm(); new_components[i] = components[i] / norm for i < dimension;
+    return Vector(new_components).  Norm() = sqrt of Dot with the vector itself ([vnorm]; that Dot never exits). *)
+Definition v_normalized (v : vec T) : res (vec T) :=
+  let* nrm := vnorm Ops v in Ok (vec_of (tab (vdim v) (fun i => ndiv Ops (vent Ops v i) nrm))).
+(** Vector::Normalize(): the same division in place, the dimension member untouched *)
+Definition v_normalize (v : vec T) : res (vec T) :=
+  let* nrm := vnorm Ops v in Ok (mkVec (vdim v) (tab (vdim v) (fun i => ndiv Ops (vent Ops v i) nrm))).
 
 (** ** Matrix *)
 (** Matrix::Resize(row, col): rows = row; columns = col; components.resize(row);
